@@ -4,6 +4,7 @@ package main
 // listed in the evidence file (trusted_base).
 
 import (
+	"fmt"
 	"go/token"
 	"go/types"
 
@@ -19,7 +20,25 @@ func (e *Engine) trustedCall(callee *ssa.Function, args []Val, st *State, reach 
 		pkg = callee.Pkg.Pkg.Path()
 	}
 	str := func(i int) string { return termOf(args[i]) }
+	if callee.Pkg == nil && originPkgPath(callee) == "slices" && callee.Origin() != nil && callee.Origin().Name() == "Contains" && !e.bv() {
+		// slices.Contains(s, v) == exists k :: s[k] == v   (scalar element types)
+		if sv, ok := args[0].(SliceV); ok && sv.Arr != nil && len(sv.Arr.Leaves) == 1 && sv.Arr.Leaves[0].key == ".v" {
+			m := e.arr(st, sv.Arr)
+			e.nfresh++
+			k := fmt.Sprintf("kc!%d", e.nfresh)
+			return BoolV{"(exists ((" + k + " Int)) (and (<= 0 " + k + ") (< " + k + " " + sv.Len + ") (= (select " + m[".v"] + " " + e.addIdx(sv.Off, k) + ") " + termOf(args[1]) + ")))"}, true
+		}
+	}
+	if pkg == "strings" && callee.Name() == "IndexByte" && !e.bv() {
+		if s, ok := args[0].(StrV); ok {
+			return IntV{"(str.indexof " + s.T + " (str.from_code " + termOf(args[1]) + ") 0)"}, true
+		}
+	}
 	switch pkg {
+	case "net":
+		if v, ok := e.trustedNet(callee, args, st); ok {
+			return v, true
+		}
 	case "strconv":
 		switch callee.Name() {
 		case "ParseInt", "Atoi":
@@ -146,6 +165,14 @@ func (e *Engine) trustedCall(callee *ssa.Function, args []Val, st *State, reach 
 				nv := IntV{"(+ " + ov.T + " " + termOf(args[1]) + ")"}
 				e.store(st, args[0], nv, reach, pos)
 				return nv, true
+			}
+		case "sync/atomic.CompareAndSwapInt32", "sync/atomic.CompareAndSwapInt64":
+			// one atomic step: if *addr == old { *addr = new; return true }; return false
+			cur := e.load(st, args[0], callee.Signature.Params().At(1).Type(), reach, pos)
+			if cv, ok := cur.(IntV); ok {
+				sw := eq(cv.T, termOf(args[1]))
+				e.store(st, args[0], IntV{ite(sw, termOf(args[2]), cv.T)}, reach, pos)
+				return BoolV{sw}, true
 			}
 		case "sync/atomic.LoadInt64", "sync/atomic.LoadInt32":
 			if v := e.load(st, args[0], callee.Signature.Results().At(0).Type(), reach, pos); v != nil {
